@@ -1,0 +1,14 @@
+//go:build verif && linux && !android
+
+package tio
+
+// Verification hooks (engine `segment`): thin wrappers, no behaviour.
+
+// VerifDecodeRead runs Offload.decodeRead on one tun read: vhdr is the 10-byte virtio_net_hdr
+// the kernel prepends, body the packet bytes. Returns the pending packets.
+func VerifDecodeRead(vhdr []byte, body []byte) ([]Packet, error) {
+	r := &Offload{rxBuf: body}
+	copy(r.readVnetScratch[:], vhdr)
+	err := r.decodeRead(len(body))
+	return r.pending, err
+}
